@@ -75,7 +75,9 @@ def impl_query_load(m, q):
             m.register_load(l, a, b)
         if l in m.loads:
             m.loads.remove(l)
-        return [p.idx for p in l.pulses][0]
+        ps = [p.idx for p in l.pulses]
+        # a load addressed by one pulse number is attached to exactly that pulse
+        return ps[0] if len(ps) == 1 else ('attached-to', ps)
     except (ValueError, KeyError):
         return 'error'
 
@@ -115,6 +117,11 @@ def property_on_impl(m, obs):
             r2 = impl_query(m, ('abs', no - 1, 0))
             if r2 != no - 1:
                 return 'absolute pulse %d resolves to %r' % (no, r2)
+            for q in (('rel', k, b['tag']), ('abs', no - 1, 0)):
+                r3 = impl_query_load(m, q)
+                if r3 != no - 1:
+                    return 'a load attached to %s is attached to %r, the table row says number %d' % (
+                        'pulse %d of object tag %d' % (k + 1, b['tag']) if q[0] == 'rel' else 'absolute pulse %d' % no, r3, no)
             seen.append(no)
         al = impl_query(m, ('all', 0, b['tag']))
         if sorted(al) != sorted(x - 1 for x in b['rows']) or len(set(al)) != len(al):
